@@ -260,6 +260,9 @@ class Program:
             from .normalize import expand_dispatch
 
             n_ds += expand_dispatch(tree)
+            from .normalize import apply_local_partials
+
+            n_ds += apply_local_partials(tree)
             _fst(tree)  # so that `g = helper(...); for x in g:` is seen as one consumer by the inliner
 
             global _BASELINE
